@@ -106,7 +106,10 @@ func takeSnapshot(kind string, rd world.Reader, wtxn *fox.Txn, probe world.Probe
 func runC03Seq(src sim.Source, o Opts, res *Result) {
 	cfg := world.DrawCfg(src)
 	pc := world.PoolCfg{Size: 3 + src.Intn("poolsize", 9), MaxSegs: 1 + src.Intn("maxsegs", 5), Hosts: src.Intn("hosts", 3) == 2,
-		WildHeavy: sim.Bool(src, "wildheavy"), TSlash: src.Intn("tslash", 4), Fanout: src.Intn("fanout", 16) == 15, Deep: src.Intn("deep", 16) == 15, Odd: src.Intn("oddbytes", 5) == 4, Ladder: src.Intn("ladder", 10) == 9}
+		WildHeavy: sim.Bool(src, "wildheavy"), TSlash: src.Intn("tslash", 4), Fanout: src.Intn("fanout", 16) == 15, Deep: src.Intn("deep", 16) == 15, Odd: src.Intn("oddbytes", 5) == 4, Ladder: src.Intn("ladder", 10) == 9, Siblings: src.Intn("siblings", 6) == 5}
+	if pc.Siblings {
+		pc.Size = 1 + src.Intn("smallpool", 3) // the sibling family does most of the work in such a run
+	}
 	pool := world.GenPool(src, pc)
 	if len(pool) == 0 {
 		return
@@ -211,7 +214,86 @@ func runC03Seq(src sim.Source, o Opts, res *Result) {
 		if src.Intn("snapnow", 3) == 2 {
 			snap(fmt.Sprintf("before step %d", step), w.R, nil, committed)
 		}
-		if src.Intn("txnstep", 3) == 2 {
+		if src.Intn("forkstep", 6) == 5 {
+			// two lineages grown from one published version: a transaction registers a route, is captured and given up;
+			// then the router itself registers another route next to it. Both lineages start from the same nodes, and what
+			// the second does to them must not reach the captured first. Candidates are unregistered patterns, preferably
+			// ones that sort after everything registered under the method (registration in lexical order); one time in two
+			// such a pattern is registered directly first.
+			m := methods3[0]
+			cnt := map[string]int{}
+			last := map[string]string{}
+			for _, rt := range committed.Routes() {
+				cnt[rt.Method]++
+				if rt.Pattern > last[rt.Method] {
+					last[rt.Method] = rt.Pattern
+				}
+			}
+			for _, mm := range methods3 {
+				if cnt[mm] > cnt[m] {
+					m = mm
+				}
+			}
+			var after, other []int
+			for i, p := range pool {
+				if committed.Get(m, p.Raw) != nil {
+					continue
+				}
+				if p.Raw > last[m] {
+					after = append(after, i)
+				} else {
+					other = append(other, i)
+				}
+			}
+			cands := after
+			if len(cands) < 2 || src.Intn("forkanywhere", 4) == 3 {
+				cands = append(cands, other...)
+			}
+			if len(cands) >= 2 {
+				res.inc("fork_steps")
+				direct := func(pi int) bool {
+					nextTag++
+					op := WOp{Kind: "handle", Method: m, Pat: pi, Tag: nextTag}
+					history = append(history, op.String())
+					want := applyModel(committed, cfg, pool, op)
+					if out := applyFox(w, w.R, pool, op); !sameOut(out, want) {
+						res.fail("C03/write-result", "with snapshots alive: %v returned %v, the model says %v (history %v)", op, out, want, history)
+						return false
+					}
+					recheck(op.String(), want.Class == "ok")
+					return !res.failed()
+				}
+				pick := func() int {
+					k := src.Intn("forkpick", len(cands))
+					pi := cands[k]
+					cands = append(cands[:k:k], cands[k+1:]...)
+					return pi
+				}
+				if len(cands) >= 3 && sim.Bool(src, "forkprelude") && !direct(pick()) {
+					break
+				}
+				a, b := pick(), pick()
+				nextTag++
+				op := WOp{Kind: "handle", Method: m, Pat: a, Tag: nextTag}
+				history = append(history, "txn{"+op.String()+" <captured> abort}")
+				private := committed.Clone()
+				txn := w.R.Txn(true)
+				want := applyModel(private, cfg, pool, op)
+				if out := applyFox(w, txn, pool, op); !sameOut(out, want) {
+					txn.Abort()
+					res.fail("C03/write-result", "in a transaction with snapshots alive: %v returned %v, the model says %v (history %v)", op, out, want, history)
+					break
+				}
+				snap("inside the forked transaction after "+op.String(), txn, txn, private)
+				txn.Abort()
+				if !res.failed() {
+					recheck("the abort of the forked transaction", false)
+				}
+				if res.failed() || !direct(b) {
+					break
+				}
+			}
+		} else if src.Intn("txnstep", 3) == 2 {
 			t := genTxnProgHint(src, pool, methods3, &nextTag, 6, 5, committed, cfg)
 			history = append(history, t.String())
 			private := committed.Clone()
